@@ -23,7 +23,7 @@ def module_text(seed, n=25):
 
 
 TREES = {
-    "treeA": {"x.cmake": 11, "b.cmake": 12, "sub/y.cmake": 13, "sub/Z.CMAKE": 14, "sub/z2.cmake": 15, "sub/deep/w.cmake": 16, "sub/notes.txt": None, "aa/q.cmake": 17},
+    "treeA": {"x.cmake": 11, "b.cmake": 12, "a_gen.cmake": 18, "keep_gen.cmake": 19, "sub/c_gen.cmake": 20, "sub/y.cmake": 13, "sub/Z.CMAKE": 14, "sub/z2.cmake": 15, "sub/deep/w.cmake": 16, "sub/notes.txt": None, "aa/q.cmake": 17},
     "treeB": {"m.cmake": 21, "k/n.cmake": 22},
     "flat": {"f1.cmake": 31, "f2.cmake": 32},
 }
@@ -63,7 +63,8 @@ def run_process(argv, cwd, home, hashseed=0, perm="sorted", repeat=1, timeout=12
 
 def settings_file(path):
     with open(path, "w") as fh:
-        fh.write("input:\n  recursive: true\nlogging:\n  version: 1\n")
+        # several exclude patterns, one negated: gitignore rules are order sensitive, the order must not depend on the process
+        fh.write("input:\n  recursive: true\n  exclude_filters: ['*_gen.cmake', '!keep_gen.cmake', 'zz*', 'notes.txt']\nlogging:\n  version: 1\n")
 
 
 # ---------------------------------------------------------------- C17
